@@ -114,6 +114,14 @@ check("C18", "exploration",
       "Relational to the programmatic API; rejected+unreadable in one invocation is unjudged.",
       "enumerated executions of the command line vs exit-code table relational to the API + I/O failpoint", "DESIGN.md 5/C18")
 
+check("C15", "fault_enumeration",
+      "ODS files are produced by an independent encoder (zipfile + hand-written ODF XML) with all 128 combinations of the optional "
+      "encoding features, 1-3 sheets and three XML encodings; every sheet is read with ods_rows (and through cutplace.rows under an "
+      "ODS CID) and compared with the logical table; faults (missing sheet, not a zip, no content.xml, truncation at every 64th/128th "
+      "byte, content.xml cut at tag boundaries, bad repeat counts) must end in DataFormatError.",
+      "Trusts the encoder cpverif/storage.py (ODF 1.2 white-space rules); trailing runs of empty rows and constructs the encoder never emits are unjudged.",
+      "independent encoder -> real reader comparison + container fault enumeration", "DESIGN.md 5/C15")
+
 NOT_YET = "check not built yet in this session; see DESIGN.md section 5 for the planned monitor"
 
 def main():
